@@ -598,6 +598,15 @@ func TypedDocument(t *rapid.T, s *ref.Schema) *TypedDoc {
 		for _, n := range names {
 			vd := *g.out.Vars[n]
 			vd.Type = cloneType(vd.Type) // every operation owns its definitions
+			if nops > 1 && g.chance("varydefault", 3) {
+				// operations that share a fragment may declare its variables differently: here with
+				// and there without a default value (dropped only where no use needs it)
+				if vd.Default == nil {
+					vd.Default = ConstOfType(g.t, g.lookup, vd.Type, 2, false)
+				} else if g.defaultNotNeeded(n, vd.Type) {
+					vd.Default = nil
+				}
+			}
 			// directives on variable definitions
 			save := g.used
 			g.used = map[string]bool{}
@@ -610,6 +619,19 @@ func TypedDocument(t *rapid.T, s *ref.Schema) *TypedDoc {
 	g.dropUnusedFragments()
 	g.out.Doc.Order = ""
 	return g.out
+}
+
+// defaultNotNeeded: no use of $n recorded so far depends on the variable having a default value.
+func (g *docGen) defaultNotNeeded(n string, ty *ref.Type) bool {
+	if ty.NonNull {
+		return true
+	}
+	for _, u := range g.out.Uses {
+		if u.Value.Raw == n && u.Loc != nil && u.Loc.NonNull {
+			return false
+		}
+	}
+	return true
 }
 
 // constDirectives: directives whose arguments contain no variables.
